@@ -50,7 +50,6 @@ def rejectJson : Reject → Json
   | .arrowInvalid => ofList [Json.str "arrowInvalid"]
   | .loop => ofList [Json.str "loop"]
   | .rpcError e => ofList [Json.str "rpcError", Engine.Driver.evJson e]
-  | .badLevel => ofList [Json.str "badLevel"]
   | .noData => ofList [Json.str "noData"]
   | .multiple n => ofList [Json.str "multiple", ofNat n]
   | .schemaMismatch => ofList [Json.str "schemaMismatch"]
@@ -91,7 +90,7 @@ def handle (fn : String) (a : Json) : R Json := do
                  | .data => Json.str "data"
                  | .log l => Engine.Driver.evJson (.log l)
                  | .exc e => Engine.Driver.evJson e
-                 | .badLevel => Json.str "badLevel")])
+                 | .ignored => Json.str "ignored")])
   | "resolve" =>
     let es ← natF a "exp_schema"
     let sh ← optStr a "exp_sha"
